@@ -85,12 +85,13 @@ class M(Model):
             out.append(("fruit outside the grid", f"fruit=({fr},{fc})"))
         elif body[fr, fc] and not body.all():
             out.append(("fruit on the snake", f"fruit=({fr},{fc})"))
-        if prev is not None and int(s.step_count) != int(prev.step_count) + 1:
-            out.append(("step_count not incremented", f"{int(prev.step_count)} -> {int(s.step_count)}"))
+        # (step_count is a transition rule - C09/C11 -, not physical consistency: not asserted under C07)
         return out
 
     def objective(self, ep):
-        return float(int(ep.states[-1].length) - 1), 1e-6
+        # fruits eaten = growth of the snake (the initial length is not documented, so it is read from the
+        # reset state rather than assumed to be 1)
+        return float(int(ep.states[-1].length) - int(ep.s0.length)), 1e-6
 
     def predict(self, s, a):
         if not self._is_legal(s, a):
@@ -107,8 +108,17 @@ class M(Model):
         if not eaten:
             st["fruit_position.row"] = int(s.fruit_position.row)
             st["fruit_position.col"] = int(s.fruit_position.col)
-        last = bool((bs > 0).all()) or int(s.step_count) + 1 >= self.T
-        return {"state": st, "reward": 1.0 if eaten else 0.0, "last": last}
+        out = {"state": st, "reward": 1.0 if eaten else 0.0}
+        if bool((bs > 0).all()) or int(s.step_count) + 1 >= self.T:
+            out["last"] = True
+        else:
+            # "episode termination: if no action can be performed, i.e. the snake is surrounded": when the head
+            # has no legal move left although the grid is not full, the docs allow LAST now and the code ends the
+            # episode on the (necessarily invalid) next move - the flag is not predicted for such a state
+            free = any(0 <= r + dr < self.R and 0 <= c + dc < self.C and bs[r + dr, c + dc] <= 1 for dr, dc in MOVES)
+            if free:
+                out["last"] = False
+        return out
 
     def stochastic_ok(self, s, a, s2):
         if not self._is_legal(s, a):
@@ -125,12 +135,9 @@ class M(Model):
         return []
 
     def validate_instance(self, s0):
-        out = self.invariants(None, None, s0, None)
-        if int(s0.length) != 1:
-            out.append(("initial length != 1", str(int(s0.length))))
-        if int(s0.step_count) != 0:
-            out.append(("initial step_count != 0", str(int(s0.step_count))))
-        return out
+        # entities on distinct free cells, body numbering consistent (the initial length and step_count are not
+        # advertised instance invariants: not asserted under C10)
+        return self.invariants(None, None, s0, None)
 
     def observe_check(self, s, obs):
         out = []
